@@ -303,7 +303,7 @@ def run_config(cfg):
     return msgs, hash(tuple(outcome))
 
 
-CROSSED = [("L", [0, 30]), ("fold", ["whole", "late", "middle", "endmid", "startmid", "bothmid", "single"]), ("hist", ["all", "markov", "warm1", "warm2"])]
+CROSSED = [("L", [0, 30, 0.1]), ("fold", ["whole", "late", "middle", "endmid", "startmid", "bothmid", "single"]), ("hist", ["all", "markov", "warm1", "warm2"])]
 DEVIATE = [("grid", ["min", "day", "mixed", "min12", "month"]), ("ncon", [2, 1]), ("eplen", [None, 1, 2]), ("start", [0, 1, 2]),
            ("unsorted", [False, True]), ("extras_first", [False, True]), ("swap_extras", [False, True]), ("dropbar", [0, 1, 2])]
 
@@ -362,7 +362,7 @@ def run(tier, **kw):
     rep.set("distinct_nontrivial", len(nontrivial))
     rep.set("deviation_bound_completed", 2 if tier == "quick" else 3)
     rep.set("exhaustive", True)
-    rep.set("rule", "one evaluation = one configuration run for two consecutive episodes on a real TradingEnv; enumerated: latency {0,30s} x "
+    rep.set("rule", "one evaluation = one configuration run for two consecutive episodes on a real TradingEnv; enumerated: latency {0, 30 s, 0.1 s} x "
                     "fold {whole, late, middle, and three windows whose boundaries fall between two timesteps} x history {all, markov, warm-up 1 gap, warm-up 2 gaps} fully crossed, times every assignment of "
                     "{grid shape, 1 or 2 contracts, episode length/start, unsorted+duplicated grid input, insertion order} and multisets of extra "
                     "events (quote or custom event at each of ~26 region/boundary positions) with at most `deviation_bound_completed` deviations "
